@@ -33,7 +33,7 @@ F(name, vis, as, first, ncfg) ==
 NoTr == [name |-> "", vis |-> "", ngen |-> 0, gargs |-> "", supers |-> << >>, nother |-> 0, methods |-> << >>]
 NoIm == [trait |-> "", selfty |-> ""]
 Base(target, variant, lead, opts, sub) ==
-  [target |-> target, variant |-> variant, attr |-> [lead |-> lead, opts |-> opts, trail |-> ""], tvis |-> "", tname |-> "", implkind |-> "static",
+  [target |-> target, variant |-> variant, attr |-> [lead |-> lead, opts |-> opts, trail |-> ""], tvis |-> "", tvisp |-> [head |-> "", rest |-> ""], tname |-> "", implkind |-> "static",
    sub |-> sub, fns |-> << >>, items |-> << >>, modname |-> "", modvis |-> "", delegname |-> "", tr |-> NoTr, im |-> NoIm]
 Subs == { << >>, << "async_trait" >>, << "doc", "async_trait" >> }
 
@@ -42,9 +42,11 @@ FnInputs == { [Base("fn", v, tv \o "T", os \o nd, sub) EXCEPT !.tvis = IF tv = "
 ModFns == UNION { [1..n -> { F("g", vis, as, fi, nc) : vis \in {"", "pub"}, as \in BOOLEAN,
                                                      fi \in { x \in Firsts : x.base # "ident" /\ x.wrap # <<"paren", "ref">> }, nc \in 0..1 }] : n \in 0..MaxFns }
 Rename(fs) == [i \in DOMAIN fs |-> [fs[i] EXCEPT !.name = "g" \o ToString(i)]]
-ModInputs == { [Base("mod", v, tv \o "T", os, << >>) EXCEPT !.tvis = IF tv = "" THEN "" ELSE "pub(crate)", !.tname = "T", !.fns = Rename(fs),
+ModVis == { [t |-> "", h |-> "", r |-> ""], [t |-> "pub(crate)", h |-> "", r |-> ""], [t |-> "pub(self)", h |-> "self", r |-> ""],
+            [t |-> "pub(super)", h |-> "super", r |-> ""], [t |-> "pub(inself::a)", h |-> "self", r |-> "::a"], [t |-> "pub(insuper::a)", h |-> "super", r |-> "::a"] }
+ModInputs == { [Base("mod", v, tv.t \o (IF tv.t = "" THEN "" ELSE " ") \o "T", os, << >>) EXCEPT !.tvis = tv.t, !.tvisp = [head |-> tv.h, rest |-> tv.r], !.tname = "T", !.fns = Rename(fs),
                                                           !.items = [i \in DOMAIN fs |-> "fn " \o fs[i].vis \o " g" \o ToString(i)], !.modname = "m", !.modvis = "pub"]
-               : v \in {"entrait", "entrait_export_unimock"}, tv \in {"", "pub(crate) "}, os \in { << >>, << Bare("unimock"), Eq("mock_api", "Mk") >>, << Bare("?Send") >> }, fs \in ModFns }
+               : v \in {"entrait", "entrait_export_unimock"}, tv \in ModVis, os \in { << >>, << Bare("unimock"), Eq("mock_api", "Mk") >>, << Bare("?Send") >> }, fs \in ModFns }
 M(name, as, recv) == [name |-> name, async |-> as, retfut |-> "", recv |-> recv, nparams |-> 1, nattrs |-> 0]
 TrMethods == UNION { [1..n -> { M("m", as, r) : as \in BOOLEAN, r \in {"ref", "value"} }] : n \in 1..MaxFns }
 TrAttrs == { [lead |-> "", opts |-> << >>, d |-> ""], [lead |-> "", opts |-> << Eq("delegate_by", "ref") >>, d |-> "ref"],
@@ -52,9 +54,9 @@ TrAttrs == { [lead |-> "", opts |-> << >>, d |-> ""], [lead |-> "", opts |-> << 
              [lead |-> "TImpl", opts |-> << Eq("delegate_by", "Del") >>, d |-> "Del"], [lead |-> "TImpl", opts |-> << Eq("delegate_by", "ref") >>, d |-> "ref"],
              [lead |-> "TImpl", opts |-> << Eq("delegate_by", "Borrow") >>, d |-> "Borrow"] }
 TraitInputs == { [Base("trait", v, a.lead, a.opts \o os, sub) EXCEPT !.tname = a.lead, !.delegname = a.d,
-                      !.tr = [name |-> "Tr", vis |-> "pub", ngen |-> 0, gargs |-> "", supers |-> << >>, nother |-> 0,
+                      !.tr = [name |-> "Tr", vis |-> tv, ngen |-> 0, gargs |-> "", supers |-> << >>, nother |-> 0,
                               methods |-> [i \in DOMAIN ms |-> [ms[i] EXCEPT !.name = "m" \o ToString(i)]]]]
-                 : v \in {"entrait", "entrait_unimock"}, a \in TrAttrs, os \in { << >>, << Bare("mockall") >>, << Bare("?Send") >>, << Bare("unimock"), Eq("mock_api", "Mk") >> },
+                 : tv \in {"pub", ""}, v \in {"entrait", "entrait_unimock"}, a \in TrAttrs, os \in { << >>, << Bare("mockall") >>, << Bare("?Send") >>, << Bare("unimock"), Eq("mock_api", "Mk") >> },
                    sub \in Subs, ms \in TrMethods }
 ImplInputs == { [Base("impl", v, ld, << >>, sub) EXCEPT !.implkind = IF ld = "" THEN "static" ELSE "dyn", !.fns = Rename(fs), !.im = [trait |-> "TImpl", selfty |-> "X"]]
                 : v \in {"entrait", "entrait_unimock"}, ld \in {"", "ref"}, sub \in Subs,
@@ -113,10 +115,22 @@ SendOnlyByDefault ==
 ByValueNeedsSend ==
   Ok /\ in.target \in {"fn", "mod"} /\ Impls[1].self \in {"blanket", "implT"} =>
     ((\E i \in DOMAIN Impls[1].methods : Impls[1].methods[i].recv = "value") <=> (SendB \in ToSet(Impls[1].app)))
+\* trait mode: a future that must be Send and owns the Impl<T> (async method, receiver by value) needs T: Send
+OwnedReceiverFutureIsSendable ==
+  Ok /\ in.target = "trait" =>
+    LET im == Impls[Len(Impls)] IN
+    (FutureSend(p.opts) /\ \E i \in DOMAIN in.tr.methods : in.tr.methods[i].async /\ in.tr.methods[i].recv = "value") => SendB \in ToSet(im.app)
 VisibilityAsRequested ==
   Ok => CASE in.target = "fn" -> Traits[1].vis = in.tvis
-          [] in.target = "mod" -> Traits[1].vis = (IF in.tvis = "" THEN "pub(super)" ELSE in.tvis) /\ lines[Len(lines)] = "use " \o in.tvis \o " m::T"
-          [] in.target = "trait" -> \A t \in ToSet(Traits) : t.name # in.delegname => t.vis = in.tr.vis
+          \* the trait sits one module further in than the re-export: what is written relative to the attribute is re-based
+          \* by exactly one `super`, everything else is copied; the re-export carries the visibility as written
+          [] in.target = "mod" -> /\ lines[Len(lines)] = "use " \o in.tvis \o " m::T"
+                                  /\ Traits[1].vis = (CASE in.tvis = "" \/ in.tvis = "pub(self)" -> "pub(super)"
+                                                        [] in.tvis = "pub(super)" -> "pub(insuper::super)"
+                                                        [] in.tvis = "pub(inself::a)" -> "pub(insuper::a)"
+                                                        [] in.tvis = "pub(insuper::a)" -> "pub(insuper::super::a)"
+                                                        [] OTHER -> in.tvis)
+          [] in.target = "trait" -> \A t \in ToSet(Traits) : t.vis = in.tr.vis
           [] OTHER -> TRUE
 \* module mode: one trait method per visible function, in order (C08 at design level)
 ModuleMethodsAreVisibleFns ==
